@@ -407,6 +407,9 @@ def _encodings_clause(ctx, env, rnd, search):
             if hs and first:
                 P.soil = hs
                 P.rootdepth, P.draindepth, P.drainpct, P.gw = first[32:34].strip(), first[62:64].strip(), first[67:70].strip(), first[70:72].strip()
+        # a drain inside the profile; its share of the seepage as a fraction (0,1] or as a percentage (1,100]
+        P.draindepth = "%02d" % rnd.randrange(4, 12)
+        P.drainpct = ["0.5", "50", "1", "10", "0.3", "00"][k] if k < 6 else rnd.choice(["0.5", "0.3", "1", "10", "50", "100", "00", ".25"])
         base = "e%d" % k
 
         def add(tag, key, what, **kw):
@@ -477,6 +480,30 @@ def _shipped_pairs(env):
     return lines, groups
 
 
+def input_states(ctx, env, lines):
+    """{k: dump} of harness command inputstate (the real Input run in-process, arrays captured on the first day)"""
+    import json, re as _re
+    vh = ctx.harness()
+    lf = os.path.join(ctx.work, "input_lines_%d.txt" % len(lines))
+    with open(lf, "w") as f:
+        for i, l in enumerate(lines):
+            f.write("%s resultfolder=IST/l%d\n" % (l, i))
+    out, start = {}, 0
+    while start < len(lines):
+        q = subprocess.run([vh, "inputstate", "-work", env.ex, "-lines", lf, "-from", str(start)], stdout=subprocess.PIPE,
+                           stderr=subprocess.PIPE, text=True, timeout=1200, cwd=env.ex)
+        for line in q.stdout.split("\n"):
+            if line.startswith("{"):
+                o = json.loads(line); out[o["line"]] = o
+        if q.returncode == 0:
+            break
+        last = [int(x) for x in _re.findall(r"(?m)^JOB (\d+)$", q.stderr)]
+        kk = last[-1] if last else start
+        out[kk] = {"line": kk, "success": False, "err": "fatal"}
+        start = kk + 1
+    return out
+
+
 def oracle(ctx, search):
     env = F.setup(ctx)
     rnd = random.Random(ctx.seed * 29 + 17)
@@ -488,6 +515,22 @@ def oracle(ctx, search):
         lines += part[0]
         groups += [(k, a + off, b_ + off, w) for k, a, b_, w in part[1]]
     runs = F.run_lines(env, "C13", lines, timeout=2400)
+    # what the real Input left in the rotation arrays and the drain parameters, for the pairs of encodings
+    want = sorted({x for key, a, b_, w in groups if key.startswith(("rotation-", "soil-", "all-csv", "measurement-", "date-format")) for x in (a, b_)})
+    ist = input_states(ctx, env, [lines[x] for x in want])
+    ist = {x: ist.get(k) for k, x in enumerate(want)}
+    for key, a, b_, what in groups:
+        if a in ist and b_ in ist:
+            da, db = ist[a], ist[b_]
+            if da is None or db is None or not da.get("success") or not db.get("success"):
+                continue            # run errors are reported by the byte comparison below
+            diff = [f for f in ("crop", "variety", "saat", "ernte", "ernte2", "saat1", "saat2", "odu", "jn", "ertr", "itag", "beginn", "draidep", "draifak")
+                    if da.get(f) != db.get(f)]
+            if diff:
+                fails.append(Fail(key="input-state:" + key, what="%s: after Input the two encodings differ in %s" % (what, ", ".join(diff)),
+                                  values={f: [da.get(f), db.get(f)] for f in diff[:4]},
+                                  replay={"cwd": "scratch copy of /repo/examples with the generated project", "line_a": lines[a], "line_b": lines[b_]}))
+    ctx.extra["input_states_compared"] = len(want)
     nontrivial = both_fail = 0
     for key, a, b_, what in groups:
         ra, rb = runs[a], runs[b_]
